@@ -77,6 +77,9 @@ def props_of(ev):
             P.add('C04')
         if base == 'unexpected-exception' and emptyish:
             P.add('C05')
+        if base == 'unexpected-exception' and 'group' in fl and not raw:
+            # a valid operand and a valid (or no) name, and no group at all: the expression does not get the group it spells out
+            P.add('C08')
         if base == 'unexpected-exception' and 'quant' in fl and not raw:
             # valid operand, valid bounds, and no pattern at all: the quantifier does not match k repetitions
             P.add('C04')
@@ -360,7 +363,14 @@ def wl_c08(tier, seed, shard, nshards):
                     yield {'prog': G.OPN('cap', G.OPN('grp', inner), name=new_), 'form': f, 'w': 'W8n'}
                     yield {'prog': G.OPN('cap', G.OPN('cap', inner), name=new_), 'form': f, 'w': 'W8n'}
                     yield {'prog': G.OPN('cat', G.OPN('cap', inner, name=new_), G.OPN('cond', G.L('y'), G.L('z'), name=new_)), 'form': f, 'w': 'W8n'}
-    yield from take(itertools.chain(det(), renames(), (it for it in G.deep_programs() if it['prog']['o'] in ('cap', 'grp'))), shard, nshards)
+    def refs():
+        # every valid spelling of a group name must be usable for the group, for a reference to it and for a conditional on it
+        for nm in ('a', 'A', '_', '__', '_a1', 'A_', 'a_b', 'Z9', 'z', 'aZ_09', 'x' * 40):
+            for f in 'cm':
+                yield {'prog': G.OPN('cat', G.OPN('cap', G.L('q'), name=nm), {'o': 'bref', 'r': nm}), 'form': f, 'w': 'W8r'}
+                yield {'prog': G.OPN('cat', G.OPN('cap', G.L('q'), name=nm), G.OPN('cond', G.L('y'), name=nm)), 'form': f, 'w': 'W8r'}
+                yield {'prog': G.OPN('cat', G.OPN('opt', G.OPN('cap', G.L('q'), name=nm)), G.OPN('cond', G.L('y'), G.L('n'), name=nm)), 'form': f, 'w': 'W8r'}
+    yield from take(itertools.chain(det(), renames(), refs(), (it for it in G.deep_programs() if it['prog']['o'] in ('cap', 'grp'))), shard, nshards)
     r = shard_rnd(seed, shard, 8)
     n = (5000 if tier == 'quick' else 50000) // nshards
     for _ in range(n):
